@@ -6,7 +6,7 @@ from ..core import Result
 from ..histsim import HistoryProperty, gen_history
 from ..world import World, global_state_guard
 
-KINDS = {"exists": ["miss", "forget", "lie-exists"], "get": ["fail-get", "forget"], "set": ["fail-readback"]}
+KINDS = {"exists": ["miss", "forget", "lie-exists"], "get": ["fail-get", "fail-get-chained", "forget"], "set": ["fail-readback"]}
 
 
 class C17(HistoryProperty):
@@ -31,16 +31,36 @@ class C17(HistoryProperty):
     STUBS = HistoryProperty.STUBS + ["FaultyCache(Cache): fingerprint-keyed dict with a scripted fault per global call index"]
     QUICK = {"runs": 350, "wall": 45}
     THOROUGH = {"runs": 60000, "wall": 540}
-    REQUIRED_CACHE = "faulty"
+    REQUIRED_CACHE = None
+
+    def spec_valid(self, spec):
+        if any(n["k"] == "dataset" and n.get("cache") not in ("faulty", "faulty_ne") for n in spec["nodes"]):
+            return False
+        return gen.spec_ok(spec)
+
     NONTRIVIAL_MEASURE = "run_with_fired_fault"
     CAP = {"quick": 40, "thorough": 160}
 
     def gen_case(self, rng, tier):
-        cfg = gen.swarm_cfg(rng, off=("shape_change", "nocache"))
+        cfg = gen.swarm_cfg(rng, off=("shape_change", "nocache"), on=("coalesce",))
         spec = gen.prune(gen.gen_spec(rng, cfg))
+        if rng.random() < 0.35:
+            # a coalesce whose first member is a cached dataset that CANNOT be evaluated under any generated dictionary
+            # (it needs a key that is never supplied): a backend lying "exists" while that member is validated must not
+            # keep the coalesce from reaching its fallback
+            k = len(spec["nodes"])
+            spec["nodes"] += [
+                {"k": "opt", "key": "Q9", "id": f"q{k}"},
+                {"k": "dataset", "name": "NEEDSQ9", "args": {"a": f"q{k}"}, "id": f"q{k + 1}"},
+                {"k": "val", "v": "fallback", "id": f"q{k + 2}"},
+                {"k": "coalesce", "members": [f"q{k + 1}", f"q{k + 2}"], "id": f"q{k + 3}"},
+                {"k": "dataset", "name": "OVERCOALESCE", "args": {"a": f"q{k + 3}"}, "id": f"q{k + 4}"},
+            ]
+            spec["roots"] = spec["roots"] + [f"q{k + 3}", f"q{k + 4}"]
+        kind = "faulty_ne" if rng.random() < 0.4 else "faulty"  # faulty_ne: a backend that relies on the default exists()
         for n in spec["nodes"]:
             if n["k"] == "dataset" and n.get("cache", "default") == "default":
-                n["cache"] = "faulty"
+                n["cache"] = kind
         dg = None
         ops = gen_history(rng, cfg, spec, n_ops=rng.randint(2, 8))
         mode = "random" if (tier == "thorough" and rng.random() < 0.4) else "sweep"
